@@ -197,6 +197,17 @@ def stable_hash(s):
     return int(hashlib.md5(s.encode("utf-8", "surrogatepass") if isinstance(s, str) else s).hexdigest()[:8], 16)
 
 
+def secondary_case_ok(case, host):
+    """bounded sub-space of the compiled programs for the non-primary hosts: every program at module scope for all nine
+    file versions, and all four scopes where the file is the host's own version (native path)"""
+    if case.get("kind") != "prog":
+        return True
+    pid = str(case.get("id", ""))
+    ver = case.get("ver")
+    native = bool(ver) and "%d.%d" % (ver[0], ver[1]) == host
+    return native or "@module" in pid
+
+
 def worker_main(argv):
     """python -m vlib.worker <check> <tier> <shard> <nshards> <host> <planfile> <outfile>"""
     check, tier, shard, nshards, host, planfile, outfile = argv[1:8]
@@ -240,7 +251,11 @@ def worker_main(argv):
             it = [json.load(f)["case"]]
     else:
         it = mod.cases(plan, tier, shard, nshards, host)
+    # a check may name the case kinds that also run on the non-primary hosts (the rest runs on the primary host only)
+    sec = getattr(mod, "SECONDARY_KINDS", None) if host != PRIMARY else None
     for case in it:
+        if sec is not None and not rp and (case.get("kind") not in sec or not secondary_case_ok(case, host)):
+            continue
         block.append(case)
         if len(block) >= 512:
             flush()
